@@ -21,7 +21,7 @@ SPEC = {
              "explicit zero entries; CRLF. distinct_nontrivial = distinct V2000 texts containing at least one property line or charge code"),
     "assumptions": ["mass-difference field (dd) kept 0: the property names M  ISO and D/T as the isotope encodings", "coordinates representable in F10.4"],
     "monitors_required": ["c08_v2000_vs_model", "c08_v2000_vs_v3000", "c08_string_compare"],
-    "required_obs": {"quick": ["entries_per_line/8", "entries_per_line/3", "encoding/codes", "encoding/lines", "encoding/stale", "dt_with_foreign_iso", "unrelated", "v2000_chiral_flag_set", "two_line_records_with_property_like_text", "atom_list_lines",
+    "required_obs": {"quick": ["stale_codes_with_zero_only_property_lines", "entries_per_line/8", "entries_per_line/3", "encoding/codes", "encoding/lines", "encoding/stale", "dt_with_foreign_iso", "unrelated", "v2000_chiral_flag_set", "two_line_records_with_property_like_text", "atom_list_lines",
                                "cov_three_digit_indices", "cov_990_to_999_atoms", "cov_adjacent_fixed_width_fields", "cov_isotopologue_history", "cov_corpus_as_v2000", "cov_identical_atom_lines_in_one_file", "cov_rad_only_lines_with_codes", "cov_chg_only_lines_with_radical_codes"]},
     "watchdog_s": {"quick": 900, "thorough": 5400},
 }
